@@ -15,6 +15,9 @@
 (*               level): as "A" without the user-var probe and the name      *)
 (*   variant "B" aggregator inside the sub-workflow: as "A" without the      *)
 (*               user-var probe                                             *)
+(*   "R" after a runtime write (two-instance iterator cases): <<level, "R",  *)
+(*               variant, instance, cs, cm_u, ret>> for every role at or      *)
+(*               below the iterator level in both instances                  *)
 (*   variant "E" the environment (level 0), built by the real              *)
 (*               newEnvironment from a configuration store holding the      *)
 (*               level-0 defaults / vars cells and a request holding the    *)
@@ -127,10 +130,26 @@ EnvViol(c, scn, e) ==
      ELSE SumSeq([j \in 1..Len(e) |->
                     IF j <= 2 THEN 0 ELSE Soft("EnvLevel", scn, e[j] = exp[j], <<0, "E", j, e[j], exp[j]>>)])
 
+\* --- after a runtime write (record <<level, "R", variant, instance, ConsolidatedVarStack[k],
+\* ConsolidatedVarMaps user vars [k], "ret" of an instance-2 call role>>): the written role and what
+\* is below it see the write, every other role - the sibling instance in particular - resolves as
+\* before; the `return` variable a call stored on its own role is not on its sibling's
+RtViol(c, rt, scn, e) ==
+  LET PW == PostRt(c, rt, e[1], e[3], e[4])
+      exp == <<e[1], "R", e[3], e[4], ResolveP(PW, e[1]), KindMapP(PW, 2, e[1]),
+               IF e[3] = "C" /\ e[4] = 2 THEN Absent ELSE "-">>
+  IN IF e = exp THEN 0
+     ELSE IF Len(e) # Len(exp) THEN Soft("Shape", scn, FALSE, <<e[1], "R", Len(e), Len(exp)>>)
+     ELSE SumSeq([j \in 1..Len(e) |->
+                    IF j <= 4 THEN 0
+                    ELSE Soft(IF j = 7 THEN "CallReturnLocal" ELSE "RuntimeWriteLocal", scn, e[j] = exp[j],
+                              <<e[1], e[3] \o ToString(e[4]), j, e[j], exp[j]>>)])
+
 \* --- strict conformance: what the property leaves open, as the code does it ---
 \* one record per level (the aggregator on the path; at an include: the include role, then the
 \* sub-workflow root) plus - unless the case was run without them (notc) - a task role and a call
 \* role variant at every level >= 2 except the sub-workflow root's
+RtRecords(c, rt) == IF rt.w = 0 THEN 0 ELSE 6 * (c.d - c.it + 1)   \* T, C, A at every level it..d of both instances
 ExpectedRoles(c, notc) ==
   1 + IF notc THEN c.d ELSE c.d + 2 * Cardinality({lv \in 2..c.d : c.inc = 0 \/ lv # c.inc + 1})
 VariantAt(c, lv) ==
@@ -145,10 +164,12 @@ RoleConforms(c, e, ex) ==
 Conforms(c, ln, Ex) ==
   IF Fails(c) THEN ln.err = "unknown-name" /\ Len(ln.r) = 0
   ELSE /\ ln.err = ""
-       /\ Len(ln.r) = ExpectedRoles(c, ln.notc)
+       /\ Len(ln.r) = ExpectedRoles(c, ln.notc) + RtRecords(c, ln.rt)
        /\ Cardinality({i \in 1..Len(ln.r) : ln.r[i][2] = "E"}) = 1
        /\ \A i \in 1..Len(ln.r) :
             \/ ln.r[i][2] = "E" /\ ln.r[i][1] = 0
+            \/ /\ ln.r[i][2] = "R" /\ ln.rt.w \in 1..2 /\ ln.r[i][1] \in c.it..c.d
+               /\ ln.r[i][3] \in {"T", "C", "A"} /\ ln.r[i][4] \in 1..2
             \/ /\ ln.r[i][1] \in 1..c.d /\ ln.r[i][2] \in VariantAt(c, ln.r[i][1])
                /\ RoleConforms(c, ln.r[i], Ex[ln.r[i][1]])
 
@@ -163,6 +184,7 @@ TCase ==
             + Soft("FailsIffInvisible", Line.scn, (Line.err # "") <=> Fails(c), <<Line.err, Fails(c)>>)
             + SumSeq([i \in 1..Len(Line.r) |->
                         IF Line.r[i][2] = "E" THEN EnvViol(c, Line.scn, Line.r[i])
+                        ELSE IF Line.r[i][2] = "R" THEN RtViol(c, Line.rt, Line.scn, Line.r[i])
                         ELSE RoleViol(c, Line.scn, Line.r[i], Ex[Line.r[i][1]])])
   /\ l' = l + 1 /\ UNCHANGED <<first, last>>
 
